@@ -172,6 +172,9 @@ def _clauses(mod):
     return ""
 
 
+_BASE: dict = {}  # canonical observation per placement (independent of the symbolic inputs): computed once per process
+
+
 def _body(placement, stubs_sp, req, keys):
     request = REQUESTS[placement][req % len(REQUESTS[placement])]
     label = f"placement={placement} stubs-in-second-search-path={stubs_sp} request={request} order-keys={keys}"
@@ -182,7 +185,9 @@ def _body(placement, stubs_sp, req, keys):
     obs = _observe(mod)
     # same result for the canonical order / top-level request, and for every placement
     for other in PLACEMENTS:
-        base = _observe(_run(other, False, "zpkg", [0, 0, 0, 0]))
+        if other not in _BASE:
+            _BASE[other] = _observe(_run(other, False, "zpkg", [0, 0, 0]))
+        base = _BASE[other]
         if base != obs:
             diff = [(a, b) for a, b in zip(str(base).split("], "), str(obs).split("], ")) if a != b][:2]
             return fail(f"{label}: merged result differs from placement={other} requested as 'zpkg' in sorted order: {diff}")
@@ -195,19 +200,19 @@ def _body(placement, stubs_sp, req, keys):
 @obligation(
     pid="C19", name="placements", timeout=tiered(280, 1200), path_timeout=120.0,
     shards=lambda: [(f"placement={p}", None, [dict(placement=p)]) for p in PLACEMENTS],
-    pre=lambda placement, stubs_sp, req, k0, k1, k2, k3: 0 <= req < 4 and all(0 <= k <= tiered(2, 3) for k in (k0, k1, k2, k3)) and (placement == "stubs-pkg" or not stubs_sp),
+    pre=lambda placement, stubs_sp, req, k0, k1, k2: 0 <= req < 4 and all(0 <= k <= tiered(1, 2) for k in (k0, k1, k2)) and (placement == "stubs-pkg" or not stubs_sp),
     drives=[ModuleFinder.find_spec, ModuleFinder.find_package, ModuleFinder.iter_submodules, GriffeLoader.load, GriffeLoader._load_package, GriffeLoader._load_submodule, MG.merge_stubs, MG._merge_function_stubs, MG._merge_stubs_members],
-    bounds={"placements": PLACEMENTS, "requests": REQUESTS, "listing order": f"four sort keys 0..{tiered(2, 3)} distributed over the files (every relative order of a .py and its .pyi, of the package and its stubs package)",
+    bounds={"placements": PLACEMENTS, "requests": REQUESTS, "listing order": f"three sort keys 0..{tiered(1, 2)} distributed round-robin over the files (every relative order of mod.py / mod.pyi and of __init__.py / __init__.pyi)",
             "module": "one runtime module (attributes, functions with every parameter kind, a class with a method) and stubs with a stub-only parameter in the middle of a signature, overloads, stub-only members"},
-    value_symbolic=["k0..k3 (enumeration order of every directory)", "stubs_sp (which search path holds the stubs package)", "req (which object path is requested)"], selectors=["placement (driver-bound)"],
+    value_symbolic=["k0..k2 (enumeration order of every directory)", "stubs_sp (which search path holds the stubs package)", "req (which object path is requested)"], selectors=["placement (driver-bound)"],
     stubs=FS_STUBS, assumptions=["the symbolic inputs are realised (the engine forks over every feasible value) before the loader runs natively on the in-memory file system"],
     must_cover=["placement:sibling", "placement:in-package", "placement:stubs-pkg", "non-trivial-order"],
-    grid=lambda seed: [dict(placement=p, stubs_sp=(p == "stubs-pkg" and s), req=r, k0=a, k1=b, k2=0, k3=1) for p in PLACEMENTS for s in (False, True) for r in (0, 1, 3) for a, b in ((0, 1), (1, 0))],
+    grid=lambda seed: [dict(placement=p, stubs_sp=(p == "stubs-pkg" and s), req=r, k0=a, k1=b, k2=1 - a) for p in PLACEMENTS for s in (False, True) for r in (0, 1, 3) for a, b in ((0, 1), (1, 0))],
     replay=lambda **kw: _replay(**kw),
 )
-def placements(placement: str, stubs_sp: bool, req: int, k0: int, k1: int, k2: int, k3: int) -> bool:
+def placements(placement: str, stubs_sp: bool, req: int, k0: int, k1: int, k2: int) -> bool:
     """Sibling .pyi, .pyi inside the package and a separate -stubs package give the same, correct merged module, for every listing order and request."""
-    vals = [realize_value(v) for v in (stubs_sp, req, k0, k1, k2, k3)]
+    vals = [realize_value(v) for v in (stubs_sp, req, k0, k1, k2)]
     if _is_tracing():
         from crosshair.tracers import NoTracing
 
@@ -275,16 +280,16 @@ def _real_run(placement, stubs_sp, request, keys):
         shutil.rmtree(tmp, ignore_errors=True)
 
 
-def _replay(placement, stubs_sp, req, k0, k1, k2, k3):
+def _replay(placement, stubs_sp, req, k0, k1, k2):
     """Real files on a scratch directory, the real finder/loader/merger in a fresh interpreter; only the ORDER of os.walk's results is injected."""
     request = REQUESTS[placement][req % len(REQUESTS[placement])]
-    res = _real_run(placement, stubs_sp, request, [k0, k1, k2, k3])
+    res = _real_run(placement, stubs_sp, request, [k0, k1, k2])
     if "error" in res:
         return True, f"loading raised on the real directory: {res['error']}"
     if res["clauses"]:
         return True, "real directory: " + res["clauses"]
     for other in PLACEMENTS:
-        base = _real_run(other, False, "zpkg", [0, 0, 0, 0])
+        base = _real_run(other, False, "zpkg", [0, 0, 0])
         if "error" in base or base["observation"] != res["observation"]:
             return True, f"real directory: merged result for placement={placement} request={request} differs from placement={other} requested as 'zpkg'"
     return False, "real directory: every clause holds and the merged result is the same for all placements"
